@@ -150,7 +150,7 @@ impl Property for C16 {
             }
             s
         }
-        let general = (vec(word(), 0..8), prop_oneof![2 => Just(Vec::new()), 1 => vec(word(), 1..4)], vec(tp.clone(), 0..=maxp), prop::option::weighted(0.6, 1usize..=12), any::<bool>())
+        let general = (vec(word(), 0..8), prop_oneof![2 => Just(Vec::new()), 1 => vec(word(), 1..4)], vec(tp.clone(), 0..=maxp), prop::option::weighted(0.6, 0usize..=12), any::<bool>())
             .prop_map(|(words, user_words, t, limit, checker)| {
                 let all: Vec<String> = words.iter().chain(user_words.iter()).cloned().collect();
                 Case { text: render(&all, &t), words, user_words, limit, checker, simple: false, term: None }
